@@ -125,6 +125,48 @@ def c07b(F, R):
             R.bad(f"arm|{v}|missing", f"no arm for LexError::{v}", loc(m))
 
 
+@rule("C07", "C07.h.recovery-stays-on-the-line", floor=1)
+def c07h(F, R):
+    """skip-to-end-of-line recovery is not run when the offending token already is the line's newline (it would swallow the next line)"""
+    f = fn_by_suffix(F, "RVParser::<T>::parse_from_file")
+    m = None
+    for x in find_matches(f["hir"]["value"]):
+        vs = [v for a in x["arms"] for k, v in pat_variants(a["pat"]) if k == "path"]
+        if vs and all(v and v.startswith(LEXERR + "::") for v in vs):
+            m = x
+    if m is None:
+        raise Anchor("match over LexError not found in parse_from_file")
+    pm = parent_map(f["hir"]["value"])
+    for v, arm in arm_table(m):
+        if v != "Expected":
+            continue
+        # LexError::Expected carries whatever token came next (Token::as_type / as_lparen ... clone `self`): it can be the Newline
+        recs = [c for c in walk(arm["body"], pats=False) if c.get("k") == "MethodCall" and c["name"] == "recover_from_parse_error"]
+        if not recs:
+            R.bad("Expected|no-recovery", "the Expected arm no longer recovers at all", loc(arm))
+            continue
+        guarded = False
+        x = recs[0]
+        while id(x) in pm and pm[id(x)] is not arm:
+            par = pm[id(x)]
+            if par.get("k") == "If":
+                cond_nodes = list(walk(par["cond"], pats=False))
+                names = {n_["res"] for n_ in cond_nodes if n_.get("k") == "Path" and n_.get("res_kind") == "Local"}
+                direct = any(n_.get("k") == "Path" and (n_.get("res") or "").endswith("TokenType::Newline") for n_ in cond_nodes)
+                via_local = False
+                for s_ in walk(arm["body"], pats=False):
+                    if s_.get("k") == "Let" and s_["pat"].get("k") == "PBinding" and s_["pat"]["name"] in names and s_.get("init"):
+                        if any(n_.get("k") == "Path" and (n_.get("res") or "").endswith("TokenType::Newline") for n_ in walk(s_["init"], pats=False)):
+                            via_local = True
+                if direct or via_local:
+                    guarded = True
+            x = par
+        if guarded:
+            R.ok("Expected|newline-guard", detail="recover_from_parse_error is skipped when the unexpected token is the Newline", where=loc(recs[0]))
+        else:
+            R.bad("Expected|newline-guard", "after `Expected .. found NEWLINE` (a missing trailing operand) recovery still skips to the next newline: the whole following line is dropped without nodes or an error", loc(recs[0]))
+
+
 @rule("C07", "C07.c.silent-variant-construction", floor=4)
 def c07c(F, R):
     """the silent LexError variants are constructed only where they are meant: comment token, newline token, exhausted lexer"""
@@ -408,6 +450,22 @@ def c15b(F, R):
         R.bad("include-error-arm", "a failing include is not reported on the directive, or stops the parse", f["sp"])
 
 
+def refuses_includes(f, parent_p):
+    """import_file starts with `if parent.is_some() { Err(..) }`: no include is ever imported"""
+    top = peel(f["hir"]["value"])
+    if top.get("k") == "Block" and not top.get("stmts") and top.get("expr") is not None:
+        top = peel(top["expr"])
+    if top.get("k") != "If":
+        return False
+    c = peel(peel_cond(top["cond"]))
+    if not (c.get("k") == "MethodCall" and c["name"] == "is_some" and ekey(c["recv"]) == parent_p):
+        return False
+    t = peel(top["then"])
+    if t.get("k") == "Block" and not t.get("stmts") and t.get("expr") is not None:
+        t = peel(t["expr"])
+    return t.get("k") == "Call" and short(callee_of(t) or "") == "Err"
+
+
 @rule("C15", "C15.c.reimport-guard", floor=2)
 def c15c(F, R):
     """sibling check of FileReader::import_file impls: re-import detection must be live and depend on the path (or the reader must refuse every include)"""
@@ -423,18 +481,7 @@ def c15c(F, R):
         params = [x.get("name") for x in f["hir"]["params"]]
         path_p, parent_p = params[1], params[2]
         # (a) refuses every include?
-        refuses = False
-        top = peel(f["hir"]["value"])
-        for n in walk(f["hir"]["value"], pats=False):
-            if n.get("k") == "If":
-                c = peel(n["cond"])
-                if c.get("k") == "MethodCall" and c["name"] == "is_some" and ekey(c["recv"]) == parent_p and ctor_names(n["then"], FRERR) and not ctor_names(n["then"], "core::result::Result") :
-                    refuses = True
-                if c.get("k") == "MethodCall" and c["name"] == "is_some" and ekey(c["recv"]) == parent_p:
-                    t = peel(n["then"])
-                    if t.get("k") == "Call" and short(callee_of(t) or "") == "Err":
-                        refuses = True
-        if refuses:
+        if refuses_includes(f, parent_p):
             R.ok(f"{name}", detail=f"{name} returns an error for every import that has a parent file: includes cannot recurse")
             continue
         # (b) live, path-dependent FileAlreadyRead guard
@@ -467,6 +514,150 @@ def c15c(F, R):
             R.bad(f"{name}|path-independent", f"{name}::import_file's FileAlreadyRead guard does not depend on the imported path", loc(guard))
         else:
             R.ok(f"{name}", detail=f"{name}: FileAlreadyRead guard keyed by the path")
+
+
+@rule("C15", "C15.d.include-relative-to-its-own-file", floor=4)
+def c15d(F, R):
+    """an include is imported with the directive's own path text and the id of the file the directive's token lives in, and the lexer pushed for it carries the id/text that same import returned"""
+    f = fn_by_suffix(F, "RVParser::<T>::parse_from_file")
+    site = None
+    for n in walk(f["hir"]["value"], pats=False):
+        if n.get("k") == "If" and peel_cond(n["cond"]).get("k") == "LetExpr" and mentions_call(peel_cond(n["cond"])["init"], "get_include_path"):
+            site = n
+    if site is None:
+        raise Anchor("`if let Some(..) = x.get_include_path()` not found in parse_from_file")
+    le = peel_cond(site["cond"])
+    binds = [b["name"] for b in walk(le["pat"]) if b.get("k") == "PBinding"]
+    if len(binds) != 1:
+        raise Anchor(f"include path pattern binds {binds}")
+    pv = binds[0]
+    calls = [c for c in walk(site["then"], pats=False) if c.get("k") == "MethodCall" and c["name"] == "import_file"]
+    if len(calls) != 1:
+        R.bad("import-call", f"{len(calls)} import_file calls in the include branch", loc(site))
+        return
+    c = calls[0]
+    a0, a1 = peel(c["args"][0]), peel(c["args"][1])
+
+    def is_on_path(e, meth):
+        e = peel(e)
+        return e.get("k") == "MethodCall" and e["name"] == meth and not e["args"] and peel(e["recv"]).get("k") == "Path" and peel(e["recv"]).get("res") == pv
+    if is_on_path(a0, "get"):
+        R.ok("path-arg", detail=f"import_file(path = {pv}.get(), ..)", where=loc(c))
+    else:
+        R.bad("path-arg", f"the imported path is `{ekey(a0)}`, not the directive's own path `{pv}.get()`", loc(c))
+    inner = None
+    if a1.get("k") == "Call" and short(callee_of(a1) or "") == "Some" and len(a1["args"]) == 1:
+        inner = a1["args"][0]
+    if inner is not None and is_on_path(inner, "file"):
+        R.ok("parent-arg", detail=f"import_file(.., parent = Some({pv}.file())): relative paths resolve against the file that contains the directive", where=loc(c))
+    else:
+        R.bad("parent-arg", f"the parent file passed for an include is `{ekey(a1)}`, not `Some({pv}.file())`: a nested include is resolved against (and attributed through) a file other than the one containing the directive", loc(c))
+    # the `.file()` chain ends in the raw token's own `file` field
+    chain = [(P + "with::With<T>", "token"), (P + "token::Token", "raw_token"), (P + "rawtoken::RawToken", None)]
+    okc = True
+    for ty, fld in chain:
+        m = F.method(ty, "file", trait="DiagnosticLocation")
+        b = peel(F.fn(m)["hir"]["value"])
+        if b.get("k") == "Block" and not b.get("stmts") and b.get("expr") is not None:
+            b = peel(b["expr"])
+        if fld is None:
+            good = ekey(b) == "self.file"
+        else:
+            good = b.get("k") == "MethodCall" and b["name"] == "file" and ekey(b["recv"]) == "self." + fld
+        if not good:
+            okc = False
+            R.bad(f"file-chain|{short(ty)}", f"{ty}::file is `{ekey(b)}`, not a delegation to its own token's file", F.fn(m)["sp"])
+    if okc:
+        R.ok("file-chain", detail="With::file -> Token::file -> RawToken::file -> self.file")
+    # pushed lexer = (text, id) of this very import
+    mt = None
+    for x in find_matches(site["then"]):
+        if any(y is c for y in walk(x["scrut"], pats=False)):
+            mt = x
+    if mt is None:
+        R.bad("push-args", "the include import is not matched on", loc(c))
+        return
+    for a in mt["arms"]:
+        if pat_variants(a["pat"]) == [("path", "core::result::Result::Ok")]:
+            bs = [b["name"] for b in walk(a["pat"]) if b.get("k") == "PBinding"]
+            news = [n for n in walk(a["body"], pats=False) if n.get("k") == "Call" and (callee_of(n) or "").endswith("Lexer::new")]
+            if len(news) == 1 and sorted(ekey(x) for x in news[0]["args"]) == sorted(bs) and len(bs) == 2:
+                R.ok("push-args", detail=f"Lexer::new({', '.join(ekey(x) for x in news[0]['args'])}) uses exactly the id and text this import returned", where=loc(news[0]))
+            else:
+                R.bad("push-args", f"the lexer pushed for an include is built from {[ekey(x) for n in news for x in n['args']]}, not from the import's own result {bs}", loc(a))
+
+
+@rule("C15", "C15.e.reader-id-text-agree", floor=2)
+def c15e(F, R):
+    """sibling check of FileReader::import_file impls: the id handed back is the key under which the returned text (and its path) is stored, and a relative path is joined to the parent's own stored path"""
+    impls = [i for i in F.impls if (i.get("trait") or "").split("::")[-1] == "FileReader"]
+    for i in impls:
+        ip = [it["path"] for it in i["items"] if it["name"] == "import_file"]
+        if not ip:
+            continue
+        f = F.fn(ip[0])
+        name = short(i["self_ty"])
+        params = [x.get("name") for x in f["hir"]["params"]]
+        path_p, parent_p = params[1], params[2]
+        body = f["hir"]["value"]
+        oks = [n for n in walk(body, pats=False) if n.get("k") == "Call" and short(callee_of(n) or "") == "Ok" and peel(n["args"][0]).get("k") == "Tup"]
+        if not oks or refuses_includes(f, parent_p):
+            R.ok(f"{name}|refuses", detail=f"{name}::import_file never returns a (id, text) pair for an include")
+            continue
+        for n in oks:
+            t = peel(n["args"][0])["elems"]
+            idk, txk = ekey(t[0]), ekey(t[1])
+            # store: map.insert(id, (.., text)) in this body, or (id, text) both projections of one looked-up entry
+            ins = [m for m in walk(body, pats=False) if m.get("k") == "MethodCall" and m["name"] == "insert" and len(m["args"]) == 2 and ekey(m["args"][0]) == idk]
+            good = None
+            for m in ins:
+                vals = {ekey(x).replace(".clone()", "") for x in walk(m["args"][1], pats=False)}
+                if txk.replace(".clone()", "") in vals:
+                    good = f"stored by {ekey(m['recv'])}.insert({idk}, (.., {txk}))"
+            root_i, root_t = idk.split(".")[0], txk.split(".")[0]
+            if good is None and root_i == root_t and idk != txk and "." in idk and "." in txk:
+                good = f"both projections of the one stored entry `{root_i}`"
+            if good:
+                R.ok(f"{name}|id-text", detail=f"{name}: Ok(({idk}, {txk})) {good}", where=loc(n))
+            else:
+                R.bad(f"{name}|id-text", f"{name}::import_file returns Ok(({idk}, {txk})) but the text is not what is stored under that id: diagnostics of the include are attributed to / rendered from another file", loc(n))
+        # parent join
+        joins = [m for m in walk(body, pats=False) if m.get("k") == "MethodCall" and m["name"] == "join" and m["args"] and ekey(m["args"][0]) == path_p]
+        if not joins:
+            R.bad(f"{name}|join", f"{name}::import_file never joins the include path to its parent's location", f["sp"])
+        for m in joins:
+            # the receiver must derive from a map lookup keyed by the parent id binding
+            derived = set()
+            keybinds = set()
+            for x in walk(body):
+                if x.get("k") in ("LetExpr",) or (x.get("k") == "If" and False):
+                    pass
+            # bindings introduced by destructuring parent_p
+            for x in walk(body, pats=False):
+                if x.get("k") == "LetExpr" and ekey(x["init"]) == parent_p:
+                    keybinds |= {b["name"] for b in walk(x["pat"]) if b.get("k") == "PBinding"}
+                if x.get("k") == "Match" and ekey(x["scrut"]) == parent_p:
+                    for a in x["arms"]:
+                        keybinds |= {b["name"] for b in walk(a["pat"]) if b.get("k") == "PBinding"}
+            changed = True
+            lets = [x for x in walk(body, pats=False) if x.get("k") in ("Let", "LetExpr") and x.get("init")]
+            while changed:
+                changed = False
+                for x in lets:
+                    names = {b["name"] for b in walk(x["pat"]) if b.get("k") == "PBinding"}
+                    if names <= derived:
+                        continue
+                    ini = list(walk(x["init"], pats=False))
+                    uses_key = any(y.get("k") == "MethodCall" and y["name"] == "get" and y["args"] and ekey(y["args"][0]).lstrip("&") in keybinds for y in ini)
+                    uses_der = any(y.get("k") == "Path" and y.get("res") in derived for y in ini)
+                    if uses_key or uses_der:
+                        derived |= names
+                        changed = True
+            rroot = ekey(m["recv"]).split(".")[0].lstrip("&")
+            if rroot in derived:
+                R.ok(f"{name}|join", detail=f"{name}: `{ekey(m['recv'])}.join({path_p})` where `{rroot}` derives from the entry stored under the parent id", where=loc(m))
+            else:
+                R.bad(f"{name}|join", f"{name}::import_file joins the include path to `{ekey(m['recv'])}`, which does not derive from the parent file's stored location", loc(m))
 
 
 # ============================================================================ C09.b / C09.c
@@ -759,6 +950,8 @@ def pipeline(F, f, inline):
             seq.append(("DiagnosticItem::from", None))
         elif n.get("k") == "MethodCall" and n["name"] == "sort" and "DiagnosticItem" in (n["recv"].get("ty", "") + n["recv"].get("aty", "")):
             seq.append(("sort", None))
+        elif n.get("k") == "MethodCall" and n["name"] in LOSES - {"push", "extend", "append", "insert"} and "DiagnosticItem" in (n["recv"].get("ty", "") + n["recv"].get("aty", "")):
+            seq.append((n["name"], None))
     return seq
 
 
@@ -812,3 +1005,122 @@ def c18d(F, R):
             R.ok(name, detail=f"{name} consults reader.get_base_file()")
         else:
             R.bad(name, f"{name}::display_errors prints every diagnostic without consulting the base-file filter: it disagrees with the other printers on multi-file input", f["sp"])
+
+
+KEEPS = {"clone", "iter", "map", "collect", "len", "is_empty", "into_iter", "enumerate", "cloned", "copied", "by_ref", "for_each",
+         "as_slice", "to_vec", "to_owned", "as_ref", "borrow", "peekable", "inspect", "iter_mut", "as_mut_slice"}
+LOSES = {"dedup", "dedup_by", "dedup_by_key", "retain", "retain_mut", "filter", "filter_map", "take", "take_while", "skip", "skip_while", "step_by",
+         "truncate", "drain", "pop", "remove", "swap_remove", "split_off", "clear", "first", "last", "nth", "find", "find_map", "position",
+         "min", "max", "min_by", "max_by", "min_by_key", "max_by_key", "rev", "reverse", "sort_by", "sort_by_key", "sort_unstable",
+         "sort_unstable_by", "sort_unstable_by_key", "sort_by_cached_key", "swap", "rotate_left", "rotate_right", "chunks", "windows",
+         "split_first", "split_last", "get", "extract_if", "map_while", "scan", "flat_map", "fuse", "zip", "chain", "push", "insert", "extend", "append"}
+
+
+@rule("C18", "C18.e.printers-emit-every-diagnostic", floor=2)
+def c18e(F, R):
+    """every printer walks its whole stored diagnostics list once, in stored order: only element- and order-preserving operations touch the list, the loop has no early exit, and the only `continue` is the base-file selection"""
+    impls = [i for i in F.impls if (i.get("trait") or "").split("::")[-1] == "ErrorDisplay"]
+    if len(impls) < 2:
+        raise Anchor(f"only {len(impls)} ErrorDisplay impls")
+    for i in impls:
+        name = short(i["self_ty"])
+        # field that holds the diagnostics
+        adt = F.adt(i["self_ty"])
+        flds = [fl["name"] for v in adt["variants"] for fl in v["fields"] if "DiagnosticItem" in fl["ty"]]
+        if len(flds) != 1:
+            raise Anchor(f"{name}: fields holding diagnostics: {flds}")
+        root = "self." + flds[0]
+        # every method of the type (and its closures) that touches the field
+        tybodies = [(q, g) for q, g in F.fns.items() if "hir" in g and (q.startswith(i["self_ty"] + "::") or q.startswith("<" + i["self_ty"] + " as "))]
+        problems = []
+        touched = 0
+        for q, g in tybodies:
+            body = g["hir"]["value"]
+            pm = parent_map(body)
+            derived = set()
+            work = [n for n in walk(body, pats=False) if n.get("k") == "Field" and ekey(n) == root]
+            seen = set()
+            while work:
+                n = work.pop()
+                if id(n) in seen:
+                    continue
+                seen.add(id(n))
+                touched += 1
+                x = n
+                while id(x) in pm:
+                    par = pm[id(x)]
+                    k = par.get("k")
+                    if k in ("DropTemps", "Use", "Cast", "Unary"):
+                        x = par
+                        continue
+                    if k == "AddrOf":
+                        if par.get("mut"):
+                            # &mut list handed to something: only a whitelisted method receiver may follow
+                            gp = pm.get(id(par), {})
+                            if not (gp.get("k") == "MethodCall" and gp.get("recv") is par):
+                                problems.append((f"mut-borrow|{short(q)}", f"`&mut {root}` escapes in {q}: the list can be emptied or rewritten before printing (e.g. mem::take + dedup)", loc(par)))
+                                break
+                        x = par
+                        continue
+                    if k == "MethodCall" and par.get("recv") is x:
+                        m = par["name"]
+                        if m in LOSES:
+                            problems.append((f"{m}|{short(q)}", f"`{m}` is applied to the diagnostics list in {q}: this channel drops, reorders or adds diagnostics that the others report (`dedup` compares DiagnosticItem by range+file only)", loc(par)))
+                            break
+                        if m not in KEEPS and m != "sort":
+                            problems.append((f"unclassified:{m}|{short(q)}", f"`{m}` on the diagnostics list in {q} is not a known element- and order-preserving operation", loc(par)))
+                            break
+                        if m == "collect" and not (par.get("ty") or "").startswith("alloc::vec::Vec"):
+                            problems.append((f"collect|{short(q)}", f"the diagnostics are collected into `{par.get('ty')}` in {q}, not a Vec: order/duplicates are not preserved", loc(par)))
+                            break
+                        x = par
+                        continue
+                    if k == "Call" and any(a is x for a in par.get("args", [])):
+                        c = callee_of(par) or declared_callee(par) or ""
+                        if short(c) == "into_iter":
+                            x = par
+                            continue
+                        if c.endswith("mem::take") or c.endswith("mem::replace") or c.endswith("mem::swap"):
+                            problems.append((f"{short(c)}|{short(q)}", f"`{c}` moves the diagnostics list out in {q}", loc(par)))
+                        break
+                    if k == "Assign" and par.get("lhs") is x and short(q) != "new":
+                        problems.append((f"assign|{short(q)}", f"{root} is reassigned in {q}", loc(par)))
+                        break
+                    if k == "Let" and par.get("init") is x and par["pat"].get("k") == "PBinding":
+                        nm = par["pat"]["name"]
+                        if nm not in derived:
+                            derived.add(nm)
+                            work += [y for y in walk(body, pats=False) if y.get("k") == "Path" and y.get("res") == nm]
+                        break
+                    break
+        f = F.fn([it["path"] for it in i["items"] if it["name"] == "display_errors"][0])
+        # loops over the list: no break/return; continue only under the base-file selection
+        for fl in for_loops(f["hir"]["value"]):
+            it = fl["iter"]
+            if not any(n.get("k") == "Field" and ekey(n) == root for n in walk(it, pats=False)):
+                continue
+            pmb = parent_map(fl["body"])
+            for n in walk(fl["body"], pats=False):
+                if n.get("k") in ("Break", "Ret"):
+                    problems.append((f"early-exit|{n['k']}", f"`{n['k'].lower()}` inside the loop over the diagnostics: the remaining diagnostics are not printed", loc(n)))
+                if n.get("k") == "Continue":
+                    conds = []
+                    x = n
+                    while id(x) in pmb:
+                        x = pmb[id(x)]
+                        if x.get("k") == "If":
+                            conds.append(x["cond"])
+                    txt = " ".join(ekey(c) for c in conds)
+                    allc = [y for c in conds for y in walk(c, pats=False)]
+                    sel = any(y.get("k") == "Field" and y.get("name") == "all_files" for y in allc) and \
+                        any(y.get("k") == "MethodCall" and y["name"] == "get_base_file" for y in allc) and \
+                        any(y.get("k") == "Field" and y.get("name") == "file" for y in allc)
+                    if not sel:
+                        problems.append(("continue|not-file-selection", f"a diagnostic is skipped under `{txt[:120]}`, which is not the base-file/--all-files selection", loc(n)))
+        if touched == 0:
+            raise Anchor(f"{name}: no use of {root} found")
+        if problems:
+            for k, msg, where in problems:
+                R.bad(f"{name}|{k}", msg, where)
+        else:
+            R.ok(name, detail=f"{name}: {touched} uses of {root}, all element- and order-preserving; no early exit")
